@@ -25,4 +25,8 @@ for d in sorted(glob.glob(os.path.join(HERE, 'seeded', 'C*-[0-9]*'))):
         print(rows[-1], flush=True)
     finally:
         shutil.rmtree(tmp, ignore_errors=True)
-json.dump([{'change': a, 'exit': b, 'detail': c} for a, b, c in rows], open(os.path.join(HERE, 'seeded', 'RESULTS.json'), 'w'), indent=1)
+rp = os.path.join(HERE, 'seeded', 'RESULTS.json')
+old = {r['change']: r for r in (json.load(open(rp)) if os.path.exists(rp) else [])}
+for a, b, c in rows:
+    old[a] = {'change': a, 'exit': b, 'detail': c, 'repo_head': subprocess.run(['git', '-C', '/repo', 'rev-parse', '--short', 'HEAD'], capture_output=True, text=True).stdout.strip()}
+json.dump([old[k] for k in sorted(old)], open(rp, 'w'), indent=1)
